@@ -16,6 +16,7 @@ func init() {
 		ID:  "C16",
 		Run: runC16,
 		Meta: an.Meta{
+			Technique: "guard/dominance rules on the CFGs of the lookup functions (path exploration with condition facts), flag-threading closure, error-discipline check",
 			Explanation: "Guards and order of the template lookup in set.go, decided on the CFG of each function with condition facts: (C16.probe) every Cache.Get is reached only under " +
 				"!developmentMode, and a hit returns the cached pointer itself before any Loader call; (C16.put) Cache.Put has exactly one call site, reached only under err == nil && <cache flag> && " +
 				"!developmentMode, storing the template just returned by the loader path under the path that was looked up; (C16.nocache) the cache flag is threaded unchanged " +
